@@ -225,6 +225,73 @@ def handle (e : Env) (w : Nat) (op : String) (args : List String) (got : String)
     let m := if m == "err" && mustAccept && cand == none then "<the point with this x-coordinate and sign>" else m
     some { model := m, spec := [m], tags := ["e2rb", if m == "err" then "e2rb.reject" else "e2rb.accept",
            if bs.length == 2 * nb + 1 then "e2rb.packed" else if bs.length == 4 * nb + 1 then "e2rb.full" else "e2rb.len"] }
+  | "f2rt", [z0, z1, cy] => do
+    -- zero has no unitary image (conj(a)/a): the harness reports err before any encoding is attempted
+    if got == "err" then
+      return { model := "err", spec := [if cy != "0" && parseHexNat z0 == some 0 && parseHexNat z1 == some 0 then "err" else "<a round trip>"],
+               tags := ["f2rt.zero"] }
+    -- C07: fp2_write_bin / fp2_read_bin round trip: decode(encode(x)) = x in both formats, sizes as advertised (FB+1 for a unitary
+    -- element in the packed format, 2·FB otherwise), the plain encoding is the two coefficients big-endian
+    let kv := (got.splitOn " ").filterMap fun t => match t.splitOn "=" with
+      | [k, v] => some (k, v)
+      | _ => none
+    let xs ← kv.lookup "x"
+    let xe ← match xs.splitOn "," with
+      | [a, b] => parseEl d a b
+      | _ => none
+    let nb := (bitLen d.p + 7) / 8
+    let qnr := ((d.levels.headD default).nr).headD 0
+    let a0 := xe.getD 0 0
+    let a1 := xe.getD 1 0
+    let unitary : Bool := (a0 * a0 + (d.p - qnr % d.p) * (a1 * a1 % d.p)) % d.p == 1 % d.p
+    let be := fun (n : Nat) => String.join ((Relic.Model.Ep2Conv.beBytes n nb).map fun b => natToHexPad b 2)
+    let bad : List String :=
+      (if kv.lookup "cyc" == some (if unitary then "1" else "0") then [] else ["cyc flag"]) ++
+      (if kv.lookup "size1" == some (toString (if unitary then nb + 1 else 2 * nb)) then [] else ["size of the packed form"]) ++
+      (if kv.lookup "size0" == some (toString (2 * nb)) then [] else ["size of the plain form"]) ++
+      (if kv.lookup "enc0" == some (be a0 ++ be a1) then [] else ["plain encoding"]) ++
+      (if kv.lookup "dec0" == some xs then [] else ["decode(encode(x)) != x in the plain form"]) ++
+      (if kv.lookup "dec1" == some xs then [] else ["decode(encode(x)) != x in the packed form"]) ++
+      (match kv.lookup "enc1" with
+       | some e => if unitary then (if e.length == 2 * (nb + 1) && (e.take (2 * nb)).toString == be a0 &&
+                                       ((e.drop (2 * nb)).toString == "00" || (e.drop (2 * nb)).toString == "01") then [] else ["packed encoding"])
+                   else (if e == be a0 ++ be a1 then [] else ["packed encoding of a non-unitary element"])
+       | none => ["no packed encoding"])
+    some { model := got, spec := [if bad.isEmpty then got else "<" ++ String.intercalate "; " bad ++ ">"],
+           tags := ["f2rt", if unitary then "f2rt.unitary" else "f2rt.general"] }
+  | "f2rb", [h] => do
+    -- C07: fp2_read_bin of an arbitrary string: accepted exactly when the length is 2·FB with both coefficients below p, or FB+1 with
+    -- a0 < p, a parity byte 0/1 and (a0² − 1)/qnr a square; the result is then valid (unitary in the packed case) and the library's own
+    -- re-encoding reproduces the input
+    let bs : List Nat ← if h == "." then some [] else
+      (List.range (h.length / 2)).mapM fun i => parseHexNat ((h.drop (2 * i)).take 2).toString
+    let nb := (bitLen d.p + 7) / 8
+    let qnr := ((d.levels.headD default).nr).headD 0
+    let p := d.p
+    let expectAccept : Bool :=
+      if bs.length == 2 * nb then
+        Relic.Model.Ep2Conv.beVal (bs.take nb) < p && Relic.Model.Ep2Conv.beVal (bs.drop nb) < p
+      else if bs.length == nb + 1 then
+        let a0 := Relic.Model.Ep2Conv.beVal (bs.take nb)
+        let par := bs.getD nb 0
+        let t := (a0 * a0 + p - 1) % p * ((d.inv? [qnr % p, 0]).getD d.zero).getD 0 0 % p     -- (a0² − 1)/qnr
+        a0 < p && par ≤ 1 && (t == 0 || legendre p t == 1) && !(t == 0 && par == 1)
+      else false
+    if !expectAccept then some { model := "err", spec := ["err"], tags := ["f2rb.reject"] } else
+    let okGot : Bool := match got.splitOn " " with
+      | [v, re] => (match v.splitOn "," with
+          | [a, b] => (match parseEl d a b with
+            | some e =>
+              let a0 := e.getD 0 0
+              let a1 := e.getD 1 0
+              re == "re=" ++ h &&
+              (if bs.length == 2 * nb then a0 == Relic.Model.Ep2Conv.beVal (bs.take nb) && a1 == Relic.Model.Ep2Conv.beVal (bs.drop nb)
+               else a0 == Relic.Model.Ep2Conv.beVal (bs.take nb) && (a0 * a0 + (p - qnr % p) * (a1 * a1 % p)) % p == 1 % p)
+            | none => false)
+          | _ => false)
+      | _ => false
+    some { model := got, spec := [if okGot then got else "<the element this string encodes> re=" ++ h],
+           tags := ["f2rb.accept", if bs.length == nb + 1 then "f2rb.packed" else "f2rb.plain"] }
   | "e2pt", [_, _] =>
     if got == "none" then some { model := got, spec := [got], tags := ["pt.none"] } else
     match parsePoint d got with
